@@ -26,10 +26,12 @@ type ndNode struct {
 }
 
 type ndEvt struct {
-	E   string `json:"e"` // heartbeat | lapse | create | report | startWatcher
-	N   string `json:"n,omitempty"`
-	ID  int    `json:"id,omitempty"`
-	How string `json:"how,omitempty"` // lapse: delete | ttl
+	E       string `json:"e"` // heartbeat | lapse | create | report | startWatcher | standby | bypass
+	N       string `json:"n,omitempty"`
+	ID      int    `json:"id,omitempty"`
+	How     string `json:"how,omitempty"` // lapse: delete | ttl
+	Running bool   `json:"running"`       // report: the status the agent reports
+	Healthy bool   `json:"healthy"`
 }
 
 type ndCase struct {
@@ -45,13 +47,13 @@ func wlStatus(cl *ckit.Cluster, wid string) string {
 	if err != nil || st == nil {
 		return "none"
 	}
-	switch {
-	case st.Running && st.Healthy:
-		return "up"
-	case !st.Running && !st.Healthy:
-		return "down"
+	b := func(x bool) string {
+		if x {
+			return "1"
+		}
+		return "0"
 	}
-	return "mixed"
+	return b(st.Running) + b(st.Healthy)
 }
 
 func runNodeDown(t *testing.T, c *ndCase, tag string) {
@@ -71,6 +73,7 @@ func runNodeDown(t *testing.T, c *ndCase, tag string) {
 	wids := map[int]string{}
 	onNode := map[string][]int{}
 	var cancel context.CancelFunc
+	var releaseKey func()
 	active := false
 	hb := map[string]bool{}
 	// the handler (SetNode{WorkloadsDown}) ends with store.UpdateNodes(n): wait for that call
@@ -86,7 +89,7 @@ func runNodeDown(t *testing.T, c *ndCase, tag string) {
 			}
 			all = all && cl.Rec.InFlight() == 0
 			for _, id := range onNode[n] {
-				if wlStatus(cl, wids[id]) != "down" {
+				if wlStatus(cl, wids[id]) != "00" {
 					all = false
 				}
 			}
@@ -131,13 +134,33 @@ func runNodeDown(t *testing.T, c *ndCase, tag string) {
 			wids[e.ID] = msgs[0].WorkloadID
 			onNode[e.N] = append(onNode[e.N], e.ID)
 		case "report":
-			fatalIf(t, raw.SetWorkloadStatus(cl.Ctx(), &types.StatusMeta{ID: wids[e.ID], Running: true, Healthy: true,
+			fatalIf(t, raw.SetWorkloadStatus(cl.Ctx(), &types.StatusMeta{ID: wids[e.ID], Running: e.Running, Healthy: e.Healthy,
 				Appname: "app", Entrypoint: "web", Nodename: name(nodeOf(onNode, e.ID))}, 0), "report")
-		case "startWatcher":
+		case "bypass":
+			_, err := cl.C.SetNode(cl.Ctx(), &types.SetNodeOptions{Nodename: name(e.N), Bypass: types.TriTrue})
+			fatalIf(t, err, "bypass")
+		case "standby":
+			// another instance holds /selfmon/active; OUR watcher process starts and stays standby
+			var err error
+			_, releaseKey, err = raw.StartEphemeral(cl.Ctx(), selfmon.ActiveKey, 60*time.Second)
+			fatalIf(t, err, "hold active key")
 			var ctx context.Context
 			ctx, cancel = context.WithCancel(cl.Ctx())
-			cl.ResetTrace()
 			go selfmon.RunNodeStatusWatcher(ctx, cl.Cfg, cl.C, t)
+			time.Sleep(300 * time.Millisecond) // let it try (and fail) to register, and let any start-up work finish
+			cl.Quiesce()
+		case "startWatcher":
+			cl.ResetTrace()
+			if releaseKey != nil {
+				// failover: the other instance goes away, our standby watcher becomes active (it retries every second)
+				releaseKey()
+				releaseKey = nil
+				time.Sleep(50 * time.Millisecond)
+			} else {
+				var ctx context.Context
+				ctx, cancel = context.WithCancel(cl.Ctx())
+				go selfmon.RunNodeStatusWatcher(ctx, cl.Cfg, cl.C, t)
+			}
 			// wait until the watcher holds the active key, then give init + the watch a moment
 			deadline := time.Now().Add(5 * time.Second)
 			for time.Now().Before(deadline) {
@@ -204,8 +227,8 @@ func genNodeDownScript(r *hx.Rng) ([]ndNode, []ndEvt) {
 	for _, n := range names { // a few workloads that their agents report up
 		for k := r.Intn(3); k > 0; k-- {
 			evs = append(evs, ndEvt{E: "create", N: n, ID: nextID})
-			if r.Chance(80) {
-				evs = append(evs, ndEvt{E: "report", ID: nextID})
+			if r.Chance(85) {
+				evs = append(evs, ndEvt{E: "report", ID: nextID, Running: r.Chance(75), Healthy: r.Chance(60)})
 			}
 			created = append(created, nextID)
 			nextID++
@@ -213,8 +236,20 @@ func genNodeDownScript(r *hx.Rng) ([]ndNode, []ndEvt) {
 	}
 	startAt := r.Intn(7)
 	total := r.Range(4, 9)
+	standbyAt := -1
+	if r.Chance(30) && startAt > 0 {
+		standbyAt = r.Intn(startAt) // failover: our watcher is standby from here until its activation at startAt
+	}
+	for _, n := range names {
+		if r.Chance(25) {
+			evs = append(evs, ndEvt{E: "bypass", N: n})
+		}
+	}
 	ttlUsed := false
 	for i := 0; i < total; i++ {
+		if i == standbyAt {
+			evs = append(evs, ndEvt{E: "standby"})
+		}
 		if i == startAt {
 			evs = append(evs, ndEvt{E: "startWatcher"})
 		}
@@ -224,7 +259,7 @@ func genNodeDownScript(r *hx.Rng) ([]ndNode, []ndEvt) {
 			created = append(created, nextID)
 			nextID++
 		case k < 6 && len(created) > 0:
-			evs = append(evs, ndEvt{E: "report", ID: hx.Pick(r, created...)})
+			evs = append(evs, ndEvt{E: "report", ID: hx.Pick(r, created...), Running: r.Chance(75), Healthy: r.Chance(60)})
 		case k < 9:
 			how := "delete"
 			if !ttlUsed && r.Chance(12) {
@@ -243,13 +278,22 @@ func genNodeDownScript(r *hx.Rng) ([]ndNode, []ndEvt) {
 
 func nodeDownCorpus() []ndCase {
 	n2 := []ndNode{{Name: "n1"}, {Name: "n2"}}
+	up := func(id int) ndEvt { return ndEvt{E: "report", ID: id, Running: true, Healthy: true} }
 	return []ndCase{
+		// a bypassed (non-test) node whose heartbeat lapsed before the watcher became active
+		{Nodes: []ndNode{{Name: "n1"}}, Script: []ndEvt{{E: "heartbeat", N: "n1"}, {E: "create", N: "n1", ID: 1}, up(1), {E: "bypass", N: "n1"}, {E: "lapse", N: "n1", How: "delete"}, {E: "startWatcher"}}},
+		// workloads whose last report was "running, unhealthy" / "stopped, healthy": all must become 00
+		{Nodes: []ndNode{{Name: "n1"}}, Script: []ndEvt{{E: "heartbeat", N: "n1"}, {E: "create", N: "n1", ID: 1}, {E: "create", N: "n1", ID: 2}, {E: "create", N: "n1", ID: 3},
+			{E: "report", ID: 1, Running: true, Healthy: false}, {E: "report", ID: 2, Running: false, Healthy: true}, up(3), {E: "startWatcher"}, {E: "lapse", N: "n1", How: "delete"}}},
+		// failover: the lapse happens while our watcher is standby; its later activation must scan
+		{Nodes: n2, Script: []ndEvt{{E: "heartbeat", N: "n1"}, {E: "heartbeat", N: "n2"}, {E: "create", N: "n1", ID: 1}, {E: "create", N: "n2", ID: 2}, up(1), up(2),
+			{E: "standby"}, {E: "lapse", N: "n1", How: "delete"}, {E: "startWatcher"}}},
 		{Nodes: n2, Script: []ndEvt{{E: "heartbeat", N: "n1"}, {E: "heartbeat", N: "n2"}, {E: "create", N: "n1", ID: 1}, {E: "create", N: "n1", ID: 2}, {E: "create", N: "n2", ID: 3},
-			{E: "report", ID: 1}, {E: "report", ID: 2}, {E: "report", ID: 3}, {E: "startWatcher"}, {E: "lapse", N: "n1", How: "delete"}}},
+			{E: "report", ID: 1, Running: true, Healthy: true}, {E: "report", ID: 2, Running: true, Healthy: true}, {E: "report", ID: 3, Running: true, Healthy: true}, {E: "startWatcher"}, {E: "lapse", N: "n1", How: "delete"}}},
 		{Nodes: n2, Script: []ndEvt{{E: "heartbeat", N: "n1"}, {E: "heartbeat", N: "n2"}, {E: "create", N: "n1", ID: 1}, {E: "create", N: "n2", ID: 2},
-			{E: "report", ID: 1}, {E: "report", ID: 2}, {E: "lapse", N: "n2", How: "delete"}, {E: "startWatcher"}}},
-		{Nodes: []ndNode{{Name: "n1"}}, Script: []ndEvt{{E: "heartbeat", N: "n1"}, {E: "create", N: "n1", ID: 1}, {E: "report", ID: 1}, {E: "startWatcher"}, {E: "lapse", N: "n1", How: "ttl"}}},
-		{Nodes: []ndNode{{Name: "n1", Test: true}, {Name: "n2"}}, Script: []ndEvt{{E: "create", N: "n1", ID: 1}, {E: "create", N: "n2", ID: 2}, {E: "report", ID: 1}, {E: "report", ID: 2}, {E: "startWatcher"}}},
+			{E: "report", ID: 1, Running: true, Healthy: true}, {E: "report", ID: 2, Running: true, Healthy: true}, {E: "lapse", N: "n2", How: "delete"}, {E: "startWatcher"}}},
+		{Nodes: []ndNode{{Name: "n1"}}, Script: []ndEvt{{E: "heartbeat", N: "n1"}, {E: "create", N: "n1", ID: 1}, {E: "report", ID: 1, Running: true, Healthy: true}, {E: "startWatcher"}, {E: "lapse", N: "n1", How: "ttl"}}},
+		{Nodes: []ndNode{{Name: "n1", Test: true}, {Name: "n2"}}, Script: []ndEvt{{E: "create", N: "n1", ID: 1}, {E: "create", N: "n2", ID: 2}, {E: "report", ID: 1, Running: true, Healthy: true}, {E: "report", ID: 2, Running: true, Healthy: true}, {E: "startWatcher"}}},
 	}
 }
 
